@@ -109,6 +109,8 @@ def install():
 
     def wrap1(name, fn):
         def w(p, *a, **kw):
+            if _state.get("nested"):
+                return fn(p, *a, **kw)
             if isinstance(p, (str, os.PathLike)) and inside(p):
                 if name == "makedirs" and os.path.isdir(p):
                     return fn(p, *a, **kw)
@@ -136,7 +138,11 @@ def install():
                 return None
             k = emit("remove", str(self))
             maybe(k, "before")
-            r = _punlink(self, missing_ok=missing_ok)
+            _state["nested"] = True       # Path.unlink calls os.unlink: one effect, one event
+            try:
+                r = _punlink(self, missing_ok=missing_ok)
+            finally:
+                _state["nested"] = False
             maybe(k, "after")
             return r
         return _punlink(self, missing_ok=missing_ok)
